@@ -221,11 +221,10 @@ def r4_send(L, repo, tier):
     handlers = [n for n in cfg.nodes if n.kind == "handler"]
     L.ob("C13.R4", F2, fn, "encoding errors are handled in send_msg", ">=1 except handler", len(handlers),
          len(handlers) >= 1)
+    tns = [None if h.ast.type is None else canon(h.ast.type) for h in handlers]
+    L.ob("C13.R4", F2, fn, "a handler of send_msg catches ValueError", "ValueError (or broader)", tns,
+         any(tn in (None, "ValueError", "Exception", "BaseException") or (tn and "ValueError" in tn) for tn in tns), fd.lineno)
     for h in handlers:
-        t = h.ast.type
-        tn = None if t is None else canon(t)
-        L.ob("C13.R4", F2, fn, "handler catches ValueError", "ValueError (or broader)", tn,
-             tn in (None, "ValueError", "Exception", "BaseException") or (tn and "ValueError" in tn), h.line)
         for s in sends:
             sn = cfg.node_of(s)
             L.ob("C13.R4", F2, fn, "no datagram is emitted after a rejected encode (`%s` unreachable from the handler)" % canon(s),
